@@ -52,12 +52,14 @@ func init() { registry["GENTAB"] = debugTab }
 func debugTab(r *Run) {
 	pool := r.Pool()
 	cases := exprtabMinify(func(int) bool { return true })
+	cases = append(cases, exprtabPrint(func() bool { return true })...)
+	cases = append(cases, litgenCases(newRng(1, "lit"), true)...)
 	var bad int64
 	parallel(len(cases), pool.Size(), func(i int) {
-		pr, err := pool.Parse(packSource([]packCase{cases[i]}), "script", 0, "v8")
+		pr, err := pool.Parse("\"use strict\";"+packSource([]packCase{cases[i]}), "script", 0, "v8")
 		if err == nil && pr.V8 != nil && !pr.V8.OK {
 			if atomic.AddInt64(&bad, 1) < 40 {
-				fmt.Printf("BAD %s: %s\n", pr.V8.Err, cases[i].Body)
+				fmt.Printf("BAD %s: %s: %s\n", pr.V8.Err, cases[i].Sig, trunc(cases[i].Body, 300))
 			}
 		}
 	})
